@@ -138,6 +138,45 @@ def check(ctx):
             ctx.ob("ALG.scan-monoid", c, f"{qn}: (scan={wf}, merge={wop}, identity={wid}, block total={wpre})", ok, "" if ok else f"uses (scan={fn}, merge={op}, identity={ident}, block total={pre})")
     ctx.count("cumreduction_call_sites", n_s)
     ctx.floor("cumreduction_call_sites", 4)
+    # ---------------- Blelloch scan (method="blelloch"): sweep strides and operand order
+    bl = mod.func("prefixscan_blelloch")
+    whiles = [w for w in walk_no_nested(bl) if isinstance(w, ast.While)]
+    up = [w for w in whiles if unparse(w.test) == "stride2 <= n_vals"]
+    down = [w for w in whiles if unparse(w.test) == "stride > 0"]
+    ctx.count("blelloch_sweeps", len(up) + len(down))
+    ctx.floor("blelloch_sweeps", 2, "up-sweep and down-sweep loops of prefixscan_blelloch")
+    ok = len(up) == 1 and bool(find("stride = stride2", up[0])) and bool(find("stride2 *= 2", up[0])) and any(isinstance(l, ast.For) and unparse(l.iter) == "range(stride2 - 1, n_vals, stride2)" for l in up[0].body)
+    ctx.ob("ALG.blelloch.upsweep", bl, "up-sweep: for i in range(stride2 - 1, n_vals, stride2) with strides (1,2),(2,4),... while stride2 <= n_vals", ok)
+    ok = len(down) == 1 and bool(find("stride2 = stride", down[0])) and bool(find("stride //= 2", down[0])) and any(isinstance(l, ast.For) and unparse(l.iter) == "range(stride2 + stride - 1, n_vals, stride2)" for l in down[0].body)
+    ctx.ob("ALG.blelloch.downsweep", bl, "down-sweep: for i in range(stride2 + stride - 1, n_vals, stride2), halving the strides until 0", ok)
+    # the down-sweep must start at the smallest power of two >= n_vals // 2 (at least 2); a floor instead
+    # of a ceiling skips the partial sums of the tail blocks whenever n_vals // 2 is not a power of two
+    st0 = [a for a in walk_no_nested(bl) if isinstance(a, ast.Assign) and unparse(a.targets[0]) == "stride2" and "n_vals" in unparse(a.value)]
+    verdict, how = None, "start stride not found"
+    if len(st0) == 1:
+        v = st0[0].value
+        inner = v
+        if isinstance(v, ast.Call) and call_name(v) in ("builtins.max", "max") and len(v.args) == 2 and const(v.args[0]) == 2:
+            inner = v.args[1]
+            u = unparse(inner)
+            E = "n_vals // 2"
+            ceil_idioms = (f"2 ** math.ceil(math.log2({E}))", f"1 << ({E} - 1).bit_length()", f"2 ** ({E} - 1).bit_length()")
+            floor_idioms = (f"2 ** math.floor(math.log2({E}))", f"2 ** int(math.log2({E}))", f"1 << ({E}).bit_length() - 1", f"1 << int(math.log2({E}))", f"2 ** (({E}).bit_length() - 1)")
+            if u in ceil_idioms:
+                verdict, how = True, f"{u}: least power of two >= {E}"
+            elif u in floor_idioms:
+                verdict, how = False, f"{u} is the greatest power of two <= {E}: for n_vals // 2 not a power of two (7-8, 13-16, 25-32 ... blocks) the first down-sweep stride is too small and the tail blocks miss a partial sum"
+            else:
+                how = f"unrecognised power-of-two idiom: {u}"
+        else:
+            how = f"start stride is {unparse(v)}"
+    ctx.ob("ALG.blelloch.downsweep-start", st0[0] if st0 else bl, "down-sweep starts at max(2, least power of two >= n_vals // 2)", verdict, how)
+    ok = bool(find("stride = stride2 // 2", bl))
+    ctx.ob("ALG.blelloch.downsweep-start.half", bl, "first down-sweep stride = stride2 // 2", ok)
+    # operand order (binop need not commute): earlier block first
+    zips = [c for c in calls(bl, "zip") if len(c.args) == 3 and unparse(c.args[0]) == "indices[i]"]
+    ok = len(zips) == 2 and all(unparse(c.args[1]) == "prefix_vals[i - stride]" and unparse(c.args[2]) == "prefix_vals[i]" for c in zips) and len(find("dsk[key] = (binop, left_val, right_val)", bl)) == 2
+    ctx.ob("ALG.blelloch.operand-order", bl, "both sweeps combine (binop, prefix_vals[i - stride], prefix_vals[i]): the earlier block is the left operand", ok)
     # ---------------- twin agreement with the array-expression engine's copies (see sa/twin.py)
     n_tw = check_pairs(ctx, pairs_for("C22"))
     ctx.count("twin_pairs", n_tw)
@@ -146,6 +185,8 @@ def check(ctx):
 
 
 VARIANTS = [
+    (RED, "        stride2 = builtins.max(2, 2 ** math.ceil(math.log2(n_vals // 2)))", "        stride2 = builtins.max(2, 2 ** math.floor(math.log2(n_vals // 2)))", "ALG.blelloch.downsweep-start"),
+    (RED, "            for i in range(stride2 + stride - 1, n_vals, stride2):", "            for i in range(stride2 + stride, n_vals, stride2):", "ALG.blelloch.downsweep"),
     (RED, "def nansum(a, axis=None, dtype=None, keepdims=False, split_every=None, out=None):\n    return reduction(\n        a,\n        chunk.nansum,\n        chunk.sum,", "def nansum(a, axis=None, dtype=None, keepdims=False, split_every=None, out=None):\n    return reduction(\n        a,\n        chunk.sum,\n        chunk.sum,", "ALG.decomposition"),
     (RED, "        chunk_min,\n        chunk.min,\n        combine=chunk_min,", "        chunk_min,\n        chunk.max,\n        combine=chunk_min,", "ALG.decomposition"),
     (RED, "        np.cumprod,\n        _cumprod_merge,\n        1,", "        np.cumprod,\n        _cumprod_merge,\n        0,", "ALG.scan-monoid"),
